@@ -189,7 +189,7 @@ func genPh(r *vf.Run) func(t *rapid.T) PhCase {
 		if c.Src == "env" {
 			modes = append(modes, pUnsetEnv, pUnsetEnv)
 		} else {
-			modes = append(modes, pMissingKey, pMissingFile, pNoSeparator)
+			modes = append(modes, pMissingKey, pMissingKey, pMissingFile, pMissingFile, pNoSeparator)
 		}
 		bad := invalidTexts(p.f)
 		if len(bad) > 0 && c.Elem < 0 {
